@@ -368,7 +368,8 @@ def ruleJoin (d : Departures) (i : MemberInputs) : Bool :=
 
 /-- 5.4.1 (D7: Synapse 0.18.5) -/
 def ruleThirdPartyInvite (d : Departures) (i : MemberInputs) (s : ThirdPartySigned) : Bool :=
-  i.target == s.mxid                                                -- 5.4.1.4
+  !s.token.isEmpty                                                  -- 5.4.1.3 `signed` has a token (and an mxid: next line)
+  && i.target == s.mxid                                             -- 5.4.1.4
   && (match thirdPartyKeys i.p i.new with                           -- 5.4.1.5 the m.room.third_party_invite event exists
       | some n => decide (n > 0)                                    -- 5.4.1.7 some public key …
       | none => false)
